@@ -1878,7 +1878,8 @@ theorem matchchar_fold (cfg : RCfg) (f : List Cell) (mc : Char) (hfirst : cfg.fi
 /-- **MATCHCHAR.**  A row in which any cells are replaced by the match character reads as the cells of the first
 sequence at those positions and as the written cells elsewhere (`_read_character_states` with `first_sequence_defined`).
 Row level: the first sequence is GIVEN (`cfg.first = some f`); the statement is not lifted to `nxStep`/`nxRead`, where
-`first` is looked up in the accumulator — match characters in whole matrices are compared with the code only. -/
+`first` is looked up in the accumulator — see `nexus_matchchar_roundtrip_partial` for the lift to one `nxStep`; the fold
+over a whole matrix with match characters is compared with the code only. -/
 theorem matchchar_row_roundtrip (cfg : RCfg) (f : List Cell) (mc : Char) (items : List (Option Cell))
     (hfirst : cfg.first = some f) (hmc : cfg.matchChars.contains mc = true)
     (hmw : isWs mc = false) (hm1 : mc ≠ '{') (hm2 : mc ≠ '(') (hm3 : mc ≠ ';')
@@ -2325,3 +2326,250 @@ example : (nxRead ⟨mkStates dna, ['.'], 5, 2, true⟩ ["A".toList, "B".toList]
     (pageRows [("A".toList, "AC-GT".toList.map Cell.sym), ("B".toList, "NNRY?".toList.map Cell.sym)] [2, 2, 1])).toOption
     = some [("A".toList, "AC-GT".toList.map Cell.sym), ("B".toList, "NNRY?".toList.map Cell.sym)] := by decide
 end DendroModel.C09
+
+/-! ## continuous matrices -/
+
+namespace DendroModel.C09
+open DendroModel.C09.Aux DendroModel.Alphabets
+
+/-- a continuous cell as a token: non-empty, no white space, a decimal number -/
+def NumTokOk (t : Str) : Prop := t ≠ [] ∧ (∀ c ∈ t, isWs c = false) ∧ (parseDec t).isSome = true
+
+theorem contRender_words (trailing : Bool) : ∀ toks : List Str, (∀ t ∈ toks, t ≠ [] ∧ ∀ c ∈ t, isWs c = false) →
+    (contRender trailing toks).foldr wsStep [[]] = toks ++ (if trailing || toks.isEmpty then [[]] else []) := by
+  intro toks
+  induction toks with
+  | nil => intro _; simp [contRender]
+  | cons t ts ih =>
+    intro h
+    have ht := h t (by simp)
+    have hts := ih (fun x hx => h x (by simp [hx]))
+    cases ts with
+    | nil =>
+      cases trailing with
+      | true =>
+        simp only [contRender, if_true, List.foldr_append, List.foldr_cons, List.foldr_nil]
+        have : wsStep ' ' [[]] = [[], []] := by simp [wsStep, isWs]
+        rw [this, foldr_word t [] [[]] ht.2]
+        simp
+      | false =>
+        simp only [contRender, Bool.false_eq_true, if_false]
+        rw [foldr_word t [] [] ht.2]
+        simp
+    | cons u us =>
+      simp only [contRender, List.foldr_append, List.foldr_cons] at hts ⊢
+      rw [hts]
+      have : wsStep ' ' ((u :: us) ++ (if (trailing || (u :: us).isEmpty) = true then [[]] else []))
+          = [] :: ((u :: us) ++ (if (trailing || (u :: us).isEmpty) = true then [[]] else [])) := by
+        simp [wsStep, isWs]
+      rw [this, foldr_word t [] _ ht.2]
+      simp
+
+/-- **continuous rows, tokens.**  The values of a row as the NEXUS writer (every value followed by a blank) or the PHYLIP
+writer (values joined by blanks) lays them out are split back into exactly the same tokens -/
+theorem continuous_tokens_roundtrip (trailing : Bool) (toks : List Str) (h : ∀ t ∈ toks, t ≠ [] ∧ ∀ c ∈ t, isWs c = false) :
+    wsWords (contRender trailing toks) = toks := by
+  rw [wsWords_eq, contRender_words trailing toks h]
+  have hne : ∀ t ∈ toks, (!t.isEmpty) = true := by
+    intro t ht
+    cases hh : t with
+    | nil => exact absurd hh (h t ht).1
+    | cons _ _ => rfl
+  rw [List.filter_append, List.filter_eq_self.mpr hne]
+  split <;> simp
+
+/-- **continuous rows, values.**  A row of numbers reads back as the same sequence of decimal tokens, hence the same
+numbers (`parseDec` is a function of the token) -/
+theorem continuous_row_roundtrip (trailing : Bool) (toks : List Str) (h : ∀ t ∈ toks, NumTokOk t) :
+    contRead (contRender trailing toks) = .ok toks := by
+  unfold contRead
+  rw [continuous_tokens_roundtrip trailing toks (fun t ht => ⟨(h t ht).1, (h t ht).2.1⟩)]
+  have : toks.all (fun t => (parseDec t).isSome) = true := by
+    simp only [List.all_eq_true]
+    exact fun t ht => (h t ht).2.2
+  simp [this]
+
+example : NumTokOk "-2.25e-07".toList ∧ NumTokOk "1e+22".toList ∧ NumTokOk "3.0".toList := by
+  unfold NumTokOk; decide
+example : (contRead (contRender true ["1.5".toList, "-2.25e-07".toList])).toOption = some ["1.5".toList, "-2.25e-07".toList] := by
+  decide
+example : ((parseDec "100.0".toList).map Dec.norm) = ((parseDec "1e2".toList).map Dec.norm) := by decide
+
+end DendroModel.C09
+
+/-! ## NeXML data-set links -/
+namespace DendroModel.C09
+open DendroModel.C09.Aux DendroModel.Alphabets
+
+theorem nexmlId_inj {i j : Nat} (h : nexmlId i = nexmlId j) : i = j := by
+  unfold nexmlId at h
+  exact natStr_inj (List.cons.inj h).2
+
+/-- a reference to the id at position `b` of a duplicate-free id list resolves to `b` -/
+theorem resolveOtus_nodup (ids : List Str) (b : Nat) (hb : b < ids.length) (hnd : ids.Nodup) :
+    resolveOtus ids ids[b] = .ok b := by
+  have : (List.range ids.length).filter (fun i => ids[i]? == some ids[b]) = [b] := by
+    apply filter_range_unique _ _ b hb
+    intro i hi
+    have hgi : ids[i]? = some ids[i] := List.getElem?_eq_getElem hi
+    simp only [hgi, beq_iff_eq, Option.some.injEq]
+    constructor
+    · intro he
+      have : ids[i]? = ids[b]? := by rw [hgi, List.getElem?_eq_getElem hb, he]
+      exact (List.getElem?_inj hi hnd).mp this
+    · intro he; subst he; rfl
+  simp only [resolveOtus, this]
+
+/-- **NeXML data sets.**  Namespaces written with the ids of pairwise different counter values, every matrix / tree list
+written with the id of its namespace as `otus=`: on reading, every block resolves to its own namespace. -/
+theorem nexml_links_resolve (ks : List Nat) (blocks : List Nat) (hk : ks.Nodup) (hb : ∀ b ∈ blocks, b < ks.length) :
+    nexmlReadRefs (nexmlWriteRefs ks blocks) = blocks.map .ok := by
+  have hnd : (ks.map nexmlId).Nodup := by
+    clear hb
+    induction ks with
+    | nil => simp
+    | cons k rest ih =>
+      simp only [List.nodup_cons, List.map_cons, List.mem_map, not_exists, not_and] at hk ⊢
+      exact ⟨fun x hx he => hk.1 (nexmlId_inj he ▸ hx), ih hk.2⟩
+  unfold nexmlReadRefs nexmlWriteRefs
+  simp only [List.map_map]
+  apply List.map_congr_left
+  intro b hbm
+  have hb' := hb b hbm
+  have hb2 : b < (ks.map nexmlId).length := by simpa using hb'
+  have := resolveOtus_nodup (ks.map nexmlId) b hb2 hnd
+  simp only [Function.comp, List.getElem?_eq_getElem hb', Option.map_some]
+  simpa using this
+
+example : nexmlReadRefs (nexmlWriteRefs [0, 5, 9] [2, 0, 1, 1]) = [.ok 2, .ok 0, .ok 1, .ok 1] :=
+  nexml_links_resolve _ _ (by decide) (by decide)
+
+end DendroModel.C09
+
+/-! ## STANDARD FORMAT and alphabet, arbitrary symbol strings -/
+namespace DendroModel.C09.Aux
+
+theorem mem_insertC_of (x c : Char) (l : List Char) (h : x = c ∨ x ∈ l) : x ∈ insertC c l := by
+  induction l with
+  | nil => simpa [insertC] using h
+  | cons d ds ih =>
+    unfold insertC
+    split
+    · simpa using h
+    · split
+      · rename_i hcd
+        rcases h with h | h
+        · subst h; rw [hcd]; simp
+        · exact h
+      · rcases h with h | h
+        · exact List.mem_cons_of_mem _ (ih (Or.inl h))
+        · simp only [List.mem_cons] at h
+          rcases h with h | h
+          · simp [h]
+          · exact List.mem_cons_of_mem _ (ih (Or.inr h))
+
+theorem mem_canonSet_of (x : Char) (l : List Char) (h : x ∈ l) : x ∈ canonSet l := by
+  induction l with
+  | nil => cases h
+  | cons c cs ih =>
+    unfold canonSet
+    simp only [List.foldr_cons]
+    simp only [List.mem_cons] at h
+    rcases h with h | h
+    · exact mem_insertC_of _ _ _ (Or.inl h)
+    · exact mem_insertC_of _ _ _ (Or.inr (ih h))
+
+end DendroModel.C09.Aux
+
+namespace DendroModel.C09
+open DendroModel.C09.Aux DendroModel.Alphabets
+
+/-- **STANDARD matrices, arbitrary symbol strings, both halves.**  For every symbol string of a custom standard alphabet
+(`SymsOk`, with at least one symbol other than the gap), the FORMAT statement the writer composes parses, and the alphabet
+`_build_state_alphabet` rebuilds from the parsed statement is one in which every declared symbol, the gap and the
+missing symbol denote themselves.  (This is `format_standard_roundtrip_partial` without the restriction to the
+generator's symbol sets.) -/
+theorem format_standard_alphabet_roundtrip (syms : Str) (h : SymsOk syms) (hne : ∃ c ∈ syms, c ≠ '-') :
+    ∃ al, (parseFormatText ("FORMAT ".toList ++ formatOf "standard".toList (specStd syms (some '-') (some '?')) ++ [';'])).bind
+        alphabetOfFmt = some al ∧ ∀ c ∈ syms ++ ['-', '?'], lookup al c = some c := by
+  rw [format_standard_roundtrip syms h]
+  let F := (canonSet (syms ++ ['-'])).filter (· != '-')
+  have hal : alphabetOfFmt ⟨"standard".toList, canonSet (syms ++ ['-']), ['-'], ['?'], ['.'], false⟩
+      = some (mkStates (specStd F (some '-') (some '?'))) := by
+    simp [alphabetOfFmt, F]
+  refine ⟨mkStates (specStd F (some '-') (some '?')), by simpa using hal, ?_⟩
+  have hFmem : ∀ c ∈ syms, c ≠ '-' → c ∈ F := by
+    intro c hc hn
+    simp only [F, List.mem_filter, bne_iff_ne, ne_eq]
+    exact ⟨mem_canonSet_of c _ (by simp [hc]), hn⟩
+  have hFne : F ≠ [] := by
+    obtain ⟨c, hc, hn⟩ := hne
+    exact List.ne_nil_of_mem (hFmem c hc hn)
+  have hFup : ∀ c ∈ F, c.toUpper = c := by
+    intro c hc
+    simp only [F, List.mem_filter] at hc
+    have := mem_canonSet c _ hc.1
+    simp only [List.mem_append, List.mem_singleton] at this
+    rcases this with hm | hm
+    · exact (h c hm).2.2
+    · subst hm; decide
+  have hmain := standard_symbols_denote_themselves F hFne hFup
+  intro c hc
+  apply hmain
+  simp only [List.mem_append, List.mem_cons, List.mem_nil_iff, or_false] at hc ⊢
+  rcases hc with hc | hc | hc
+  · by_cases hd : c = '-'
+    · exact Or.inr (Or.inl hd)
+    · exact Or.inl (hFmem c hc hd)
+  · exact Or.inr (Or.inl hc)
+  · exact Or.inr (Or.inr hc)
+
+example : ∃ al, (parseFormatText ("FORMAT ".toList ++ formatOf "standard".toList (specStd "XY01".toList (some '-') (some '?')) ++ [';'])).bind
+    alphabetOfFmt = some al ∧ ∀ c ∈ "XY01".toList ++ ['-', '?'], lookup al c = some c :=
+  format_standard_alphabet_roundtrip _ (by unfold SymsOk; decide) ⟨'X', by decide, by decide⟩
+
+end DendroModel.C09
+
+/-! ## MATCHCHAR inside nxStep -/
+namespace DendroModel.C09
+open DendroModel.C09.Aux DendroModel.Alphabets
+
+/-- **MATCHCHAR inside the matrix reader.**  A MATRIX row (new label or a TAXA-block taxon without a sequence yet) in which
+any cells are given by the match character, read by `nxStep` when the first row of the matrix — looked up in the
+accumulator under the remembered first label — holds the cells `f`: the row is stored with `f`'s cells at those
+positions.  `_partial`: one row; the fold over all rows of a matrix (the first row stays in place while later rows are
+stored) is not proved — matrices with match characters are compared with the code on every such case. -/
+theorem nexus_matchchar_roundtrip_partial (cfg : NxCfg) (acc : Acc) (l0 label : Str) (f : List Cell) (mc : Char)
+    (items : List (Option Cell))
+    (hfirst : findRow acc l0 = some (some f))
+    (hk : (findRow acc label = none ∧ (cfg.ntax = 0 ∨ acc.length < cfg.ntax)) ∨ findRow acc label = some none)
+    (hi : cfg.interleave = false) (hmc : cfg.matchChars.contains mc = true)
+    (hmw : isWs mc = false) (hm1 : mc ≠ '{') (hm2 : mc ≠ '(') (hm3 : mc ≠ ';')
+    (hok : ∀ c, some c ∈ items → CellOk cfg.al cfg.matchChars c)
+    (hlen : items.length = cfg.nchar) (hf : items.length ≤ f.length) :
+    nxStep cfg (.ok (acc, some l0)) (label, renderM mc items)
+      = .ok (setRow acc label (fillM f 0 items), some l0) := by
+  have hrs := matchchar_row_roundtrip ⟨cfg.al, cfg.matchChars, some f, cfg.nchar, 0⟩ f mc items rfl hmc hmw hm1 hm2 hm3 hok
+    (by simp [hlen]) (by simpa using hf)
+  have hfl : (fillM f 0 items).length = items.length := by
+    have : ∀ (its : List (Option Cell)) k, (fillM f k its).length = its.length := by
+      intro its
+      induction its with
+      | nil => intro k; rfl
+      | cons it r ih => intro k; cases it <;> simp [fillM, ih]
+    exact this items 0
+  rcases hk with ⟨hn, hroom⟩ | hn
+  · have hroom' : (cfg.ntax == 0 || decide (acc.length < cfg.ntax)) = true := by
+      rcases hroom with h | h <;> simp [h]
+    simp [nxStep, hn, hroom', hfirst, hrs, hi, hfl, hlen]
+  · simp [nxStep, hn, hfirst, hrs, hi, hfl, hlen]
+
+example : nxStep ⟨mkStates dna, ['.'], 3, 2, false⟩ (.ok ([("A".toList, some [.sym 'A', .sym 'C', .sym 'G']), ("B".toList, none)], some "A".toList))
+      ("B".toList, renderM '.' [none, some (.sym 'T'), none])
+    = .ok (setRow [("A".toList, some [.sym 'A', .sym 'C', .sym 'G']), ("B".toList, none)] "B".toList
+        (fillM [.sym 'A', .sym 'C', .sym 'G'] 0 [none, some (.sym 'T'), none]), some "A".toList) :=
+  nexus_matchchar_roundtrip_partial _ _ _ _ _ '.' _ (by decide) (Or.inr (by decide)) rfl (by decide) (by decide) (by decide)
+    (by decide) (by decide) (by intro c hc; simp at hc; subst hc; unfold CellOk; decide) rfl (by decide)
+
+end DendroModel.C09
+
